@@ -79,7 +79,19 @@ def run(v, tier, seed, g):
     tst = tabcorr.run(v, seed, 500 if tier == "quick" else 6000)
     if not g["ok"] and not v.violations:
         v.violation("gate", "proof obligations no longer check: " + "; ".join(g["broken"]), {"broken": g["broken"]}, no_input=True)
-    cov = {"checker_cmd": f"./check C01 --tier {tier}", "trusted_base": valprops.ORACLE_TRUST + ["Coq kernel (Flatten.v layout lemmas; Fact.v argument factorisation)",
+    # the component maps of the value numbering (Indexing.v) against indexing.py on every call the corpus makes
+    import idxcorr
+    ic = idxcorr.run(list(corpus.PINNED) + corpus.random_cases(seed + 5, 12 if tier == "quick" else 300))
+    v.oblige(ic["distinct"] > 0 and ic["equal"] == ic["distinct"] and not ic["errors"] and not ic["export_errors"], max(ic["distinct"], 1))
+    for e in ic["errors"][:2]:
+        v.violation(f"c01-indexing-harness:{e[0]}", f"the indexing correspondence could not be evaluated: {e[1]}", {"error": e}, no_input=True)
+    if ic["export_errors"]:
+        v.violation("c01-indexing-export", f"{ic['export_errors']} calls of the indexing functions have inputs the harness cannot read off the UFL object", {}, no_input=True)
+    for mm in ic["mismatches"][:2]:
+        v.violation(f"c01-indexing:{mm['case']}", f"ffcx/ir/analysis/indexing.py returns a component map that differs from the model Indexing.v (case {mm['case']}): "
+                    "the scalar graph then reads a tensor component from the wrong place", mm, no_input=True)
+    v.notes["indexing_correspondence"] = {k: ic[k] for k in ("calls", "distinct", "equal", "indexed", "component_tensor", "index_sum", "product", "largest") if k in ic}
+    cov = {"checker_cmd": f"./check C01 --tier {tier}", "trusted_base": valprops.ORACLE_TRUST + ["Coq kernel (Flatten.v layout lemmas; Fact.v argument factorisation; Indexing.v component maps; Lookup.v operator table)", "idxcorr.py: inputs of the model read off the UFL objects (shapes, free indices, multi-index) by the harness",
                                                                       "factcorr.py: export of the scalar integrand graph S and of the real factors (argument-free sub-DAGs collapsed to atoms), exact Gaussian-integer evaluation",
                                                                       "UFL's arity checker for the multilinearity hypothesis (checked per exported integrand by Fact.wfb)"],
            "programs": st["cases"], "disagreements_checked": st["agree"] + st["mismatch"], "evaluations": st["agree"] + st["mismatch"],
